@@ -1,0 +1,99 @@
+//go:build verif
+
+package io
+
+import (
+	"runtime/debug"
+	"sync/atomic"
+)
+
+// Verification hooks, compiled in only with the "verif" build tag.
+// They let an external monitor observe (and perturb) the block hand-off
+// protocol of the encoding/decoding tasks and see recovered panics.
+const verifOn = true
+
+// Sides
+const (
+	verifSideEncode = 0
+	verifSideDecode = 1
+	verifSideHeader = 2
+)
+
+// Protocol steps reported through the step hook
+const (
+	verifStart        = iota // task goroutine started
+	verifWaitEnter           // about to wait for the token
+	verifSpin                // one iteration of the wait loop did not get the token
+	verifAcquired            // token observed == id-1
+	verifCancelSeen          // cancel value observed while waiting
+	verifIOBegin             // about to touch the shared bitstream
+	verifIOEnd               // done with the shared bitstream
+	verifEOS                 // (decode) end-of-stream marker read
+	verifPublish             // token passed to the next task
+	verifPostPublish         // (decode) start of the concurrent part after the early publish
+	verifCancelStored        // cancel value stored by the deferred handler
+	verifExit                // task about to signal completion
+)
+
+// Exported mirrors of the constants for monitors.
+const (
+	VerifSideEncode   = verifSideEncode
+	VerifSideDecode   = verifSideDecode
+	VerifSideHeader   = verifSideHeader
+	VerifStart        = verifStart
+	VerifWaitEnter    = verifWaitEnter
+	VerifSpin         = verifSpin
+	VerifAcquired     = verifAcquired
+	VerifCancelSeen   = verifCancelSeen
+	VerifIOBegin      = verifIOBegin
+	VerifIOEnd        = verifIOEnd
+	VerifEOS          = verifEOS
+	VerifPublish      = verifPublish
+	VerifPostPublish  = verifPostPublish
+	VerifCancelStored = verifCancelStored
+	VerifExit         = verifExit
+)
+
+// VerifStepHook is called at every protocol step. token points to the shared
+// block counter of the stream instance (identity of the instance; may be read
+// atomically by the monitor). The hook may block, yield, sleep or panic.
+type VerifStepHook func(side int, blockID int32, step int, token *int32)
+
+// VerifRecoverHook is called from the deferred recover handlers with the
+// recovered value and the stack of the panicking goroutine.
+type VerifRecoverHook func(side int, blockID int32, r any, stack []byte)
+
+var verifStepHook atomic.Pointer[VerifStepHook]
+var verifRecoverHook atomic.Pointer[VerifRecoverHook]
+
+// SetVerifStepHook installs (or removes with nil) the step hook.
+func SetVerifStepHook(h VerifStepHook) {
+	if h == nil {
+		verifStepHook.Store(nil)
+		return
+	}
+
+	verifStepHook.Store(&h)
+}
+
+// SetVerifRecoverHook installs (or removes with nil) the recover hook.
+func SetVerifRecoverHook(h VerifRecoverHook) {
+	if h == nil {
+		verifRecoverHook.Store(nil)
+		return
+	}
+
+	verifRecoverHook.Store(&h)
+}
+
+func verifStep(side int, blockID int32, step int, token *int32) {
+	if h := verifStepHook.Load(); h != nil {
+		(*h)(side, blockID, step, token)
+	}
+}
+
+func verifRecovered(side int, blockID int32, r any) {
+	if h := verifRecoverHook.Load(); h != nil {
+		(*h)(side, blockID, r, debug.Stack())
+	}
+}
